@@ -21,4 +21,6 @@ def run(ctx) -> None:
     rule_G6(ctx, "G6")
     ctx.rules_run.append("G9")
     template.rule_G9(ctx)
+    ctx.rules_run.append("G11")
+    template.rule_G11(ctx)
     ctx.floor("G1", "cardinality obligations", len([o for o in ctx.obs if o.rule == "G1"]), 8)
